@@ -70,9 +70,10 @@ func c16MakeLayout(n int, maxSize int64, deficitPiece int) (*c16Layout, []io.Rea
 	readers := make([]io.ReaderAt, 0, n)
 	sizes := make([]int64, 0, n)
 	for k := 0; k < n; k++ {
-		sz := verifI64("size")
-		hd := verifI64("hdr")
-		pad := verifI64("pad")
+		// 8-bit nondets widened to int64: same value sets, much cheaper solver queries
+		sz := int64(verifU8("size"))
+		hd := int64(verifU8("hdr"))
+		pad := int64(verifU8("pad"))
 		verifAssume(sz >= 0 && sz <= maxSize)
 		verifAssume(hd >= 0 && hd <= 3)
 		verifAssume(pad >= 0 && pad <= 2)
@@ -80,7 +81,7 @@ func c16MakeLayout(n int, maxSize int64, deficitPiece int) (*c16Layout, []io.Rea
 		if k == deficitPiece {
 			// the backing file is shorter than the metadata declares (by 1..size bytes)
 			verifAssume(sz >= 1)
-			fsize = verifI64("short_file_size")
+			fsize = int64(verifU8("short_file_size"))
 			verifAssume(fsize >= hd && fsize < hd+sz)
 		}
 		f := &c16File{name: fmt.Sprintf("piece%d", k), size: fsize}
@@ -106,8 +107,8 @@ func VerifC16Multi() {
 	L := verifChoice("len", verifParam("maxLen", 6)+1)
 	l, readers, sizes := c16MakeLayout(n, int64(verifParam("maxSize", 6)), -1)
 
-	off := verifI64("off")
-	verifAssume(off >= -2 && off <= l.total+2)
+	off := int64(verifU8("off")) - 2
+	verifAssume(off <= l.total+2)
 	// known finding: a negative offset is answered with (0, nil) instead of an error
 	verifKnownFinding("C16-negative-offset", off < 0)
 
@@ -149,8 +150,8 @@ func VerifC16Short() {
 	bad := verifChoice("short_piece", n)
 	l, readers, sizes := c16MakeLayout(n, int64(verifParam("maxSize", 6)), bad)
 
-	off := verifI64("off")
-	verifAssume(off >= 0 && off <= l.total+2)
+	off := int64(verifU8("off"))
+	verifAssume(off <= l.total+2)
 	verifKnownFinding("C16-short-piece-silent", bad < n-1)
 
 	m := NewMultiReaderAt(readers, sizes)
